@@ -4,6 +4,7 @@ pub mod c03;
 pub mod c04;
 pub mod c11;
 pub mod c12;
+pub mod c19;
 
 pub fn run(id: &str, tier: Tier) -> Option<Report> {
     Some(match id {
@@ -11,6 +12,7 @@ pub fn run(id: &str, tier: Tier) -> Option<Report> {
         "C04" => c04::run(tier),
         "C11" => c11::run(tier),
         "C12" => c12::run(tier),
+        "C19" => c19::run(tier),
         _ => return None,
     })
 }
